@@ -380,6 +380,29 @@ pub fn docol() -> ZooLang {
     }
 }
 
+/// Context-dependent lexing without a `word` token: after `y` an explicit line-break token may follow (elsewhere the line
+/// break is white space), after `z` the string `a` is a token of its own (elsewhere it is an identifier). A token lexed in
+/// one state is only reusable in another if no token that is valid THERE would have won at that place.
+pub fn nlctx() -> ZooLang {
+    let g = G::new("nlctx")
+        .rule("program", rep(sym("statement")))
+        .rule("statement", choice(vec![
+            seq(vec![s("x"), sym("identifier"), s(";")]),
+            seq(vec![s("y"), opt(sym("newline")), sym("identifier"), s(";")]),
+            seq(vec![s("z"), opt(sym("kw_a")), sym("identifier"), s(";")]),
+        ]))
+        .rule("identifier", pat("[a-w]+"))
+        .rule("newline", s("\n"))
+        .rule("kw_a", s("a"))
+        .extras(vec![pat("\\s")]);
+    ZooLang {
+        name: "nlctx", spec: spec(g, None),
+        lexemes: vec!["x", "y", "z", "a", "bc", "\n", ";", " "],
+        seeds: vec!["", "x\nab;\nx\ncd;\n", "y\nab;\nx\ncd;\n", "y ab;", "x a;", "z a b;", "z a;", "x a; z a b; y\n c;", "y\n\nab;", "z\na\nb;", "x", "y\n;", "z a a;"],
+        skippable: b" \t\r\n", has_scanner: false,
+    }
+}
+
 pub const SEAM_SCANNER: &str = include_str!("../../zoo/seam_scanner.c");
 
 /// A scanner that queries range boundaries: a word that begins at the first byte of an included range is a `seam_word`.
@@ -493,13 +516,13 @@ pub fn fixture(name: &'static str, lexemes: Vec<&'static str>, seeds: Vec<&'stat
 }
 
 pub fn core_zoo() -> Vec<ZooLang> {
-    vec![arith(), stmts(), jsonish(), glr(), lexla(), indent(), pstring(), lookfar(), resv(), colm(), modal(), docol()]
+    vec![arith(), stmts(), jsonish(), glr(), lexla(), indent(), pstring(), lookfar(), resv(), colm(), modal(), docol(), nlctx()]
 }
 
 pub fn by_name(name: &str) -> Option<ZooLang> {
     match name {
         "arith" => Some(arith()), "stmts" => Some(stmts()), "jsonish" => Some(jsonish()), "glr" => Some(glr()), "lexla" => Some(lexla()),
-        "indent" => Some(indent()), "pstring" => Some(pstring()), "lookfar" => Some(lookfar()), "groups" => Some(groups()), "resv" => Some(resv()), "tmpl" => Some(tmpl()), "tagl" => Some(tagl()), "colm" => Some(colm()), "modal" => Some(modal()), "docol" => Some(docol()), "seam" => Some(seam()),
+        "indent" => Some(indent()), "pstring" => Some(pstring()), "lookfar" => Some(lookfar()), "groups" => Some(groups()), "resv" => Some(resv()), "tmpl" => Some(tmpl()), "tagl" => Some(tagl()), "colm" => Some(colm()), "modal" => Some(modal()), "docol" => Some(docol()), "nlctx" => Some(nlctx()), "seam" => Some(seam()),
         _ => None,
     }
 }
